@@ -309,6 +309,12 @@ func (c *Ctx) ff0(role string) string {
 				}
 			}
 		}
+		// … or through a helper the map is handed to (f.imports.put(path, …))
+		for _, ef := range c.CG().Sum[reg].sortedEffects() {
+			if ef.Kind == "mapupdate" && strings.HasPrefix(ef.Field, "jen.File.") {
+				return strings.TrimPrefix(ef.Field, "jen.File.")
+			}
+		}
 	case "hints":
 		imp := c.ff("imports")
 		for _, v := range mapFields() {
